@@ -1,6 +1,5 @@
 (* BuilderWF.v — the transliterated SectionsBuilder / GraphBuilder keeps the arena a well-formed
-   forest (C20; used by C05/C17/C18): for every list of reader blocks in the class [plain_items]
-   (every list item, at any depth, starts with text, or is a lone list, or is empty), every key and
+   forest (C20; used by C05/C17/C18): for EVERY list of reader blocks, every key and
    every well-formed arena, [build_document] returns normally and
      - the resulting arena satisfies [arena_ok];
      - the slots of the older notes are untouched;
@@ -249,11 +248,6 @@ Proof.
   exists n'. split; [exact G'|]. rewrite K'. split; [now apply insertable_live|]. split; [exact Dn | congruence].
 Qed.
 
-(* ---------- the input class -------------------------------------------------------------------- *)
-
-Lemma item_plain_lead h r : item_plain (h :: r) = true -> text_lead h = true \/ (list_lead h = true /\ r = []).
-Proof. destruct h; cbn; auto; try discriminate; destruct r; auto; discriminate. Qed.
-
 (* folding a step that relates its states by Post *)
 Lemma fold_Post {X} (step : bst -> X -> res bst) (l : list X) :
   forall st, Pre st ->
@@ -293,30 +287,32 @@ Section Main.
   Variable dir : string.
 
   Definition block_wf n :=
-    forall f b st, dblock_size b <= n -> 4 * n + 1 <= f -> plain_items b = true -> is_header b = false ->
+    forall f b st, dblock_size b <= n -> 4 * n + 1 <= f -> is_header b = false ->
       Pre st -> exists st', block dir f b st = Ok st' /\ Moved st st'.
 
   Definition sblock_wf n :=
-    forall f h st, dblock_size h <= n -> 4 * n + 1 <= f -> plain_items h = true ->
+    forall f h st, dblock_size h <= n -> 4 * n + 1 <= f ->
       (text_lead h = true \/ list_lead h = true) -> Pre st ->
       exists st', section_block dir f h st = Ok st' /\ Post st st' /\
                   (text_lead h = true -> Moved st st' /\ fresh_container (b_arena st') (b_cur st')).
 
+  (* a section that starts with text (a heading, or the text of an item) *)
+  Definition hsection_wf n :=
+    forall f h body st, dblocks_size (h :: body) <= n -> 4 * n + 2 <= f -> text_lead h = true -> Pre st ->
+      exists st', process_section dir f (h :: body) st = Ok st' /\ Moved st st'.
+
+  (* any list item *)
   Definition section_wf n :=
-    forall f it st, dblocks_size it <= n -> 4 * n + 2 <= f ->
-      Forall (fun b => plain_items b = true) it -> item_plain it = true -> Pre st ->
-      exists st', process_section dir f it st = Ok st' /\ Post st st' /\
-                  (forall h r, it = h :: r -> text_lead h = true -> Moved st st').
+    forall f it st, dblocks_size it <= n -> 4 * n + 5 <= f -> Pre st ->
+      exists st', process_section dir f it st = Ok st' /\ Post st st'.
 
   Definition sections_wf n :=
-    forall f L bs st, dblocks_size bs <= n -> 4 * n + 3 <= f ->
-      Forall (fun b => plain_items b = true) bs -> headed bs -> Pre st ->
+    forall f L bs st, dblocks_size bs <= n -> 4 * n + 3 <= f -> headed bs -> Pre st ->
       exists st', process_sections dir f L bs st = Ok st' /\ Post st st' /\ (bs <> [] -> Moved st st').
 
   (* a run of blocks starts below the cursor whatever the flag was *)
   Definition blocks_wf n :=
-    forall f bs st, dblocks_size bs <= n -> 4 * n + 4 <= f ->
-      Forall (fun b => plain_items b = true) bs -> Pre (set_insert st true) ->
+    forall f bs st, dblocks_size bs <= n -> 4 * n + 4 <= f -> Pre (set_insert st true) ->
       exists st', process_blocks dir f bs st = Ok st' /\
                   Grow (b_arena st) (b_cur st) true (b_arena st') /\
                   (bs = [] -> st' = st) /\ (bs <> [] -> Moved (set_insert st true) st').
@@ -325,22 +321,22 @@ Section Main.
   Proof. destruct f as [|f]; [lia | reflexivity]. Qed.
 
   Lemma items_fold_wf n f its st :
-    section_wf n -> items_plain its -> (forall it, In it its -> dblocks_size it <= n) -> 4 * n + 2 <= f ->
+    section_wf n -> (forall it, In it its -> dblocks_size it <= n) -> (its <> [] -> 4 * n + 5 <= f) ->
     Pre st ->
     exists st', fold_left (fun acc it => do s <- acc; process_section dir f it s) its (Ok st) = Ok st' /\
                 Post st st'.
   Proof.
-    intros HS Hok Hsz Hf HP.
+    intros HS Hsz Hf HP.
     apply (fold_Post (fun s it => process_section dir f it s) its st HP).
     intros it Hin s Hs.
-    unfold items_plain in Hok. rewrite Forall_forall in Hok. destruct (Hok it Hin) as [Hl Hb].
-    destruct (HS f it s (Hsz it Hin) Hf Hb Hl Hs) as (s' & H1 & P1 & _).
+    assert (Hne : its <> []) by (intros ->; contradiction).
+    destruct (HS f it s (Hsz it Hin) (Hf Hne) Hs) as (s' & H1 & P1).
     exists s'. auto.
   Qed.
 
   (* a list block: the list node, its items below it, back to the list node *)
   Lemma list_block n f its st k :
-    section_wf n -> items_plain its -> (forall it, In it its -> dblocks_size it <= n) -> 4 * n + 2 <= f ->
+    section_wf n -> (forall it, In it its -> dblocks_size it <= n) -> (its <> [] -> 4 * n + 5 <= f) ->
     Pre st -> insertable k = true -> is_dock k = false ->
     exists st',
       (do st <- add_node st k;
@@ -349,14 +345,14 @@ Section Main.
        do st <- fold_left (fun acc it => do s <- acc; process_section dir f it s) its (Ok st);
        Ok (set_insert (set_id st id) false)) = Ok st' /\ Moved st st'.
   Proof.
-    intros HS Hok Hsz Hf HP Hins Hdk.
+    intros HS Hsz Hf HP Hins Hdk.
     destruct (add_node_Moved st k HP (insertable_live k Hins) Hdk) as (st1 & H1 & M1 & G1 & Hc1).
     rewrite H1. cbn [bind]. cbv zeta.
     assert (Hfresh : fresh_container (b_arena st1) (b_cur st1)).
     { eexists. split; [exact G1|]. cbn [g_kind g_child g_next]. auto. }
     assert (HP1 : Pre (set_insert st1 true)).
     { split; [apply (Post_Pre _ _ (Moved_Post _ _ M1)) | now apply fresh_disc_true]. }
-    destruct (items_fold_wf n f its (set_insert st1 true) HS Hok Hsz Hf HP1) as (st2 & H2 & P2).
+    destruct (items_fold_wf n f its (set_insert st1 true) HS Hsz Hf HP1) as (st2 & H2 & P2).
     rewrite H2. cbn [bind]. eexists. split; [reflexivity|].
     cbn [set_insert set_id b_arena b_cur b_insert b_map].
     destruct M1 as ((GG1 & _) & Hle & _). destruct P2 as (GG2 & _).
@@ -366,7 +362,7 @@ Section Main.
 
   Lemma step_block_wf n : (forall m, m < n -> section_wf m /\ blocks_wf m) -> block_wf n.
   Proof.
-    intros IH f b st Hsz Hf Hok Hnh HP.
+    intros IH f b st Hsz Hf Hnh HP.
     destruct f as [|f]; [lia|]. rewrite block_S.
     destruct b as [lr l|lr lang text|lr bs|its|its|lr lv l|lr|lr h al rows]; try discriminate.
     - (* paragraph: reference or leaf *)
@@ -387,7 +383,7 @@ Section Main.
       { eexists. split; [exact G1|]. cbn [g_kind g_child g_next]. auto. }
       assert (HP1 : Pre (set_insert (B (b_arena st1) (b_cur st1) true []) true)).
       { split; [apply (Post_Pre _ _ (Moved_Post _ _ M1)) | now apply fresh_disc_true]. }
-      destruct (HB f bs _ (le_n _) ltac:(lia) (proj1 (plain_quote lr bs) Hok) HP1) as (inner & H2 & GG2 & _).
+      destruct (HB f bs _ (le_n _) ltac:(lia) HP1) as (inner & H2 & GG2 & _).
       rewrite H2. cbn [bind]. eexists. split; [reflexivity|].
       destruct M1 as ((GG1 & _) & Hle & Hi1). rewrite Hi1.
       cbn [b_arena b_cur] in GG2.
@@ -395,15 +391,15 @@ Section Main.
     - (* ordered list *)
       rewrite size_olist in Hsz. set (n' := items_size its - 1).
       destruct (IH n' ltac:(destruct its; cbn [items_size] in *; lia)) as [HS _].
-      apply (list_block n' f its st KOList HS (proj1 (plain_olist its) Hok)); auto.
+      apply (list_block n' f its st KOList HS); auto.
       + intros it Hin. pose proof (items_size_in it its Hin). unfold n'. lia.
-      + unfold n'. destruct its; cbn [items_size] in *; lia.
+      + unfold n'. destruct its; [congruence | cbn [items_size] in *; lia].
     - (* bullet list *)
       rewrite size_blist in Hsz. set (n' := items_size its - 1).
       destruct (IH n' ltac:(destruct its; cbn [items_size] in *; lia)) as [HS _].
-      apply (list_block n' f its st KBList HS (proj1 (plain_blist its) Hok)); auto.
+      apply (list_block n' f its st KBList HS); auto.
       + intros it Hin. pose proof (items_size_in it its Hin). unfold n'. lia.
-      + unfold n'. destruct its; cbn [items_size] in *; lia.
+      + unfold n'. destruct its; [congruence | cbn [items_size] in *; lia].
     - (* rule *)
       destruct (add_leaf st KRule lr HP eq_refl eq_refl) as (st' & H & M & _). exists st'. auto.
     - (* table *)
@@ -413,7 +409,7 @@ Section Main.
 
   Lemma step_sblock_wf n : (forall m, m < n -> section_wf m) -> sblock_wf n.
   Proof.
-    intros IH f h st Hsz Hf Hok Hlead HP.
+    intros IH f h st Hsz Hf Hlead HP.
     destruct f as [|f]; [lia|]. rewrite section_block_S.
     destruct h as [lr l|lr lang text|lr bs|its|its|lr lv l|lr|lr hh al rows];
       try (destruct Hlead as [Hx|Hx]; discriminate).
@@ -422,97 +418,121 @@ Section Main.
       eexists. split; [exact G|]. cbn [g_kind g_child g_next]. auto.
     - rewrite size_olist in Hsz. set (n' := items_size its - 1).
       assert (HS : section_wf n') by (apply IH; destruct its; cbn [items_size] in *; lia).
-      destruct (items_fold_wf n' f its st HS (proj1 (plain_olist its) Hok)) as (st2 & H2 & P2); auto.
+      destruct (items_fold_wf n' f its st HS) as (st2 & H2 & P2); auto.
       { intros it Hin. pose proof (items_size_in it its Hin). unfold n'. lia. }
-      { unfold n'. destruct its; cbn [items_size] in *; lia. }
+      { unfold n'. destruct its; [congruence | cbn [items_size] in *; lia]. }
       exists st2. split; [exact H2|]. split; [exact P2 | discriminate].
     - rewrite size_blist in Hsz. set (n' := items_size its - 1).
       assert (HS : section_wf n') by (apply IH; destruct its; cbn [items_size] in *; lia).
-      destruct (items_fold_wf n' f its st HS (proj1 (plain_blist its) Hok)) as (st2 & H2 & P2); auto.
+      destruct (items_fold_wf n' f its st HS) as (st2 & H2 & P2); auto.
       { intros it Hin. pose proof (items_size_in it its Hin). unfold n'. lia. }
-      { unfold n'. destruct its; cbn [items_size] in *; lia. }
+      { unfold n'. destruct its; [congruence | cbn [items_size] in *; lia]. }
       exists st2. split; [exact H2|]. split; [exact P2 | discriminate].
     - destruct (add_leaf st (KSection (to_ginlines dir l)) lr HP eq_refl eq_refl) as (st' & H & M & G).
       exists st'. split; [exact H|]. split; [now apply Moved_Post|]. intros _. split; [exact M|].
       eexists. split; [exact G|]. cbn [g_kind g_child g_next]. auto.
   Qed.
 
-  Lemma step_section_wf n : sblock_wf n -> (forall m, m < n -> blocks_wf m) -> section_wf n.
+  (* the body of a section below its node, then back to the node *)
+  Lemma section_body m f body st st1 :
+    blocks_wf m -> dblocks_size body <= m -> 4 * m + 4 <= f ->
+    Moved st st1 -> fresh_container (b_arena st1) (b_cur st1) ->
+    exists st2, process_blocks dir f body st1 = Ok st2 /\ Moved st (set_id st2 (b_cur st1)).
   Proof.
-    intros HSB IH f it st Hsz Hf Hok Hlead HP.
-    destruct f as [|f]; [lia|]. rewrite process_section_S.
+    intros HB Hsz Hf M1 Hfresh.
+    assert (HP1 : Pre (set_insert st1 true)).
+    { split; [apply (Post_Pre _ _ (Moved_Post _ _ M1)) | now apply fresh_disc_true]. }
+    destruct (HB f body st1 Hsz Hf HP1) as (st2 & H2 & GG2 & Hnil & Hcons).
+    exists st2. split; [exact H2|].
+    assert (Hi2 : b_insert st2 = false).
+    { destruct body as [|b0 body0].
+      - rewrite (Hnil eq_refl). now destruct M1 as (_ & _ & ?).
+      - now destruct (Hcons ltac:(discriminate)) as (_ & _ & ?). }
+    unfold set_id. rewrite Hi2.
+    destruct M1 as ((GG1 & _) & Hle & _).
+    eapply back_to; eauto.
+  Qed.
+
+  Lemma step_hsection_wf n : sblock_wf n -> (forall m, m < n -> blocks_wf m) -> hsection_wf n.
+  Proof.
+    intros HSB IH f h body st Hsz Hf Htl HP.
+    destruct f as [|f]; [lia|]. rewrite process_section_S, (text_lead_starts h body Htl).
+    rewrite dblocks_size_cons in Hsz. pose proof (dblock_size_pos h) as Hpos.
+    (* the section's text: a section node; its body below it; back to the section node *)
+    destruct (HSB f h st ltac:(lia) ltac:(lia) (or_introl Htl) HP) as (st1 & H1 & P1 & HM).
+    destruct (HM Htl) as [M1 Hfresh].
+    rewrite H1. cbn [bind].
+    destruct (section_body _ f body st st1 (IH (dblocks_size body) ltac:(lia)) (le_n _) ltac:(lia) M1 Hfresh)
+      as (st2 & H2 & HMv).
+    rewrite H2. cbn [bind]. eexists. split; [reflexivity | exact HMv].
+  Qed.
+
+  Lemma step_section_wf n : sblock_wf n -> hsection_wf n -> blocks_wf n -> section_wf n.
+  Proof.
+    intros HSB HH HB f it st Hsz Hf HP.
     destruct it as [|h body].
-    - exists st. split; [reflexivity|]. split; [now apply Post_refl | discriminate].
-    - inversion Hok as [|? ? Hh Hb]; subst. rewrite dblocks_size_cons in Hsz.
-      pose proof (dblock_size_pos h) as Hpos.
-      destruct (item_plain_lead h body Hlead) as [Htl|[Hll ->]].
-      + (* the item's text: a section node; its body below it; back to the section node *)
-        destruct (HSB f h st ltac:(lia) ltac:(lia) Hh (or_introl Htl) HP) as (st1 & H1 & P1 & HM).
-        destruct (HM Htl) as [M1 Hfresh].
-        rewrite H1. cbn [bind].
-        assert (HP1 : Pre (set_insert st1 true)).
-        { split; [apply (Post_Pre _ _ P1) | now apply fresh_disc_true]. }
-        destruct (IH (dblocks_size body) ltac:(lia) f body st1 (le_n _) ltac:(lia) Hb HP1)
-          as (st2 & H2 & GG2 & Hnil & Hcons).
-        rewrite H2. cbn [bind]. eexists. split; [reflexivity|].
-        assert (HMv : Moved st (set_id st2 (b_cur st1))).
-        { assert (Hi2 : b_insert st2 = false).
-          { destruct body as [|b0 body0].
-            - rewrite (Hnil eq_refl). now destruct M1 as (_ & _ & ?).
-            - now destruct (Hcons ltac:(discriminate)) as (_ & _ & ?). }
-          unfold set_id. rewrite Hi2.
-          destruct M1 as ((GG1 & _) & Hle & _).
-          eapply back_to; eauto. }
-        split; [now apply Moved_Post | intros; exact HMv].
-      + (* a lone list: its items join the enclosing list *)
-        destruct (HSB f h st ltac:(lia) ltac:(lia) Hh (or_intror Hll) HP) as (st1 & H1 & P1 & _).
-        rewrite H1. cbn [bind]. rewrite process_blocks_nil by lia. cbn [bind].
-        eexists. split; [reflexivity|]. split.
-        * eapply Post_same_r; [exact P1 | repeat split].
-        * intros h' r' E Ht. inversion E; subst. destruct h'; discriminate.
+    - destruct f as [|f]; [lia|]. rewrite process_section_S.
+      exists st. split; [reflexivity | now apply Post_refl].
+    - destruct (text_lead h) eqn:Htl.
+      + destruct (HH f h body st Hsz ltac:(lia) Htl HP) as (st' & H & M).
+        exists st'. split; [exact H | now apply Moved_Post].
+      + destruct f as [|f]; [lia|]. rewrite process_section_S.
+        destruct (starts_with_header (h :: body)) eqn:Hs.
+        * (* a lone list: its items join the enclosing list *)
+          assert (body = [] /\ list_lead h = true) as [-> Hll].
+          { destruct h; cbn in Htl, Hs; try discriminate; destruct body; try discriminate; auto. }
+          rewrite dblocks_size_cons in Hsz. cbn [dblocks_size fold_right] in Hsz.
+          destruct (HSB f h st ltac:(lia) ltac:(lia) (or_intror Hll) HP) as (st1 & H1 & P1 & _).
+          rewrite H1. cbn [bind]. rewrite process_blocks_nil by lia. cbn [bind].
+          eexists. split; [reflexivity|].
+          eapply Post_same_r; [exact P1 | repeat split].
+        * (* no text: a section node without text, ALL blocks of the item below it, back to the node *)
+          destruct (add_node_Moved st (KSection []) HP eq_refl eq_refl) as (st1 & H1 & M1 & G1 & Hc1).
+          rewrite H1. cbn [bind].
+          assert (Hfresh : fresh_container (b_arena st1) (b_cur st1)).
+          { eexists. split; [exact G1|]. cbn [g_kind g_child g_next]. auto. }
+          destruct (section_body n f (h :: body) st st1 HB Hsz ltac:(lia) M1 Hfresh) as (st2 & H2 & HMv).
+          rewrite H2. cbn [bind]. eexists. split; [reflexivity | now apply Moved_Post].
   Qed.
 
   Lemma step_sections_wf n :
-    section_wf n -> (forall m, m < n -> sections_wf m) -> sections_wf n.
+    hsection_wf n -> (forall m, m < n -> sections_wf m) -> sections_wf n.
   Proof.
-    intros HS IH f L bs st Hsz Hf Hok Hhd HP.
+    intros HS IH f L bs st Hsz Hf Hhd HP.
     destruct f as [|f]; [lia|]. rewrite process_sections_S.
     destruct bs as [|h r].
     { exists st. split; [reflexivity|]. split; [now apply Post_refl | intros H; now elim H]. }
     cbv zeta.
     destruct (span_section L r) as [body rest] eqn:Es.
     destruct (span_section_spec L r body rest Es) as [Hr Hrest]. subst r.
-    inversion Hok as [|? ? Hh Hb]; subst. apply Forall_app in Hb as [Hbody Hrst].
     rewrite dblocks_size_cons, dblocks_size_app in Hsz.
     pose proof (dblock_size_pos h) as Hpos.
     cbn [headed] in Hhd.
     assert (Htl : text_lead h = true) by (destruct h; try discriminate; reflexivity).
-    destruct (HS f (h :: body) st) as (st1 & H1 & P1 & HM1).
+    destruct (HS f h body st) as (st1 & H1 & M1); auto.
     { rewrite dblocks_size_cons. lia. }
     { lia. }
-    { constructor; assumption. }
-    { destruct h; try discriminate; reflexivity. }
-    { exact HP. }
     rewrite H1. cbn [bind].
-    destruct (IH (dblocks_size rest) ltac:(lia) f L rest st1 (le_n _) ltac:(lia) Hrst Hrest (Post_Pre _ _ P1))
+    pose proof (Moved_Post _ _ M1) as P1.
+    destruct (IH (dblocks_size rest) ltac:(lia) f L rest st1 (le_n _) ltac:(lia) Hrest (Post_Pre _ _ P1))
       as (st2 & H2 & P2 & _).
     exists st2. split; [exact H2|].
-    assert (HMv : Moved st st2) by (eapply Moved_Post_trans; [exact (HM1 h body eq_refl Htl) | exact P2]).
+    assert (HMv : Moved st st2) by (eapply Moved_Post_trans; [exact M1 | exact P2]).
     split; [now apply Moved_Post | intros _; exact HMv].
   Qed.
 
   Lemma step_blocks_wf n : block_wf n -> sections_wf n -> blocks_wf n.
   Proof.
-    intros HB HSs f bs st Hsz Hf Hok HP.
+    intros HB HSs f bs st Hsz Hf HP.
     destruct f as [|f]; [lia|]. rewrite process_blocks_S.
     destruct bs as [|b0 bs0].
     { exists st. split; [reflexivity|]. split; [apply Grow_refl; apply HP|]. split; [reflexivity | intros H; now elim H]. }
     cbv zeta.
     destruct (span_pre (b0 :: bs0)) as [pre rest] eqn:Es.
     destruct (span_pre_spec _ pre rest Es) as (Hbs & Hpre & Hrest).
-    rewrite Hbs in Hok, Hsz. apply Forall_app in Hok as [Hokp Hokr]. rewrite dblocks_size_app in Hsz.
+    rewrite Hbs in Hsz. rewrite dblocks_size_app in Hsz.
     destruct (fold_Moved (fun s b => block dir f b s) pre (set_insert st true) HP) as (st1 & H1 & P1 & HM1).
-    { intros b Hin s Hs. rewrite Forall_forall in Hokp, Hpre.
+    { intros b Hin s Hs. rewrite Forall_forall in Hpre.
       apply (HB f b s); auto.
       - assert (dblock_size b <= dblocks_size pre).
         { clear - Hin. induction pre as [|x l IHl]; [contradiction|]. rewrite dblocks_size_cons.
@@ -529,21 +549,22 @@ Section Main.
       intros ->. rewrite app_nil_r in Hbs. discriminate.
     - cbn [headed] in Hrest.
       destruct (header_level h) as [L|] eqn:EL; [|destruct h; discriminate].
-      destruct (HSs f L (h :: r) st1 ltac:(lia) ltac:(lia) Hokr Hrest (Post_Pre _ _ P1)) as (st2 & H2 & _ & HM2).
+      destruct (HSs f L (h :: r) st1 ltac:(lia) ltac:(lia) Hrest (Post_Pre _ _ P1)) as (st2 & H2 & _ & HM2).
       exists st2. split; [exact H2|]. apply Hfin.
       eapply Post_Moved_trans; [exact P1 | apply HM2; discriminate].
   Qed.
 
-  (* all five, for every size *)
+  (* all six, for every size *)
   Theorem builder_wf n :
-    block_wf n /\ sblock_wf n /\ section_wf n /\ sections_wf n /\ blocks_wf n.
+    block_wf n /\ sblock_wf n /\ hsection_wf n /\ sections_wf n /\ blocks_wf n /\ section_wf n.
   Proof.
     induction n as [n IH] using lt_wf_ind.
-    assert (HB : block_wf n) by (apply step_block_wf; intros m Hm; destruct (IH m Hm) as (_ & _ & ? & _ & ?); auto).
-    assert (HSB : sblock_wf n) by (apply step_sblock_wf; intros m Hm; now destruct (IH m Hm) as (_ & _ & ? & _)).
-    assert (HS : section_wf n) by (apply step_section_wf; [exact HSB | intros m Hm; now destruct (IH m Hm) as (_ & _ & _ & _ & ?)]).
-    assert (HSs : sections_wf n) by (apply step_sections_wf; [exact HS | intros m Hm; now destruct (IH m Hm) as (_ & _ & _ & ? & _)]).
-    repeat split; auto. now apply step_blocks_wf.
+    assert (HB : block_wf n) by (apply step_block_wf; intros m Hm; destruct (IH m Hm) as (_ & _ & _ & _ & ? & ?); auto).
+    assert (HSB : sblock_wf n) by (apply step_sblock_wf; intros m Hm; now destruct (IH m Hm) as (_ & _ & _ & _ & _ & ?)).
+    assert (HH : hsection_wf n) by (apply step_hsection_wf; [exact HSB | intros m Hm; now destruct (IH m Hm) as (_ & _ & _ & _ & ? & _)]).
+    assert (HSs : sections_wf n) by (apply step_sections_wf; [exact HH | intros m Hm; now destruct (IH m Hm) as (_ & _ & _ & ? & _)]).
+    assert (HBs : blocks_wf n) by now apply step_blocks_wf.
+    repeat split; auto. now apply step_section_wf.
   Qed.
 End Main.
 
@@ -563,21 +584,19 @@ Qed.
 (* what the run of the sections builder on a fresh root does, in terms of Grow *)
 Lemma build_document_grow (a : arena) (key : string) (bs : list dblock) :
   arena_ok a = true ->
-  Forall (fun b => plain_items b = true) bs ->
   exists st, build_document a key bs = Ok st /\
     Grow (a ++ [GN (KDocument key) None None None]) (length a) true (b_arena st).
 Proof.
-  intros Hok Hbs. unfold build_document, fuel_for.
-  destruct (builder_wf (key_parent key) (dblocks_size bs)) as (_ & _ & _ & _ & HB).
+  intros Hok. unfold build_document, fuel_for.
+  destruct (builder_wf (key_parent key) (dblocks_size bs)) as (_ & _ & _ & _ & HB & _).
   destruct (build_key_wf a key Hok) as [O D].
-  destruct (HB (4 * dblocks_size bs + 8) bs (build_key a key) (le_n _) ltac:(lia) Hbs) as (st & H & G & _).
+  destruct (HB (4 * dblocks_size bs + 8) bs (build_key a key) (le_n _) ltac:(lia)) as (st & H & G & _).
   { split; [exact O | exact D]. }
   exists st. split; [exact H | exact G].
 Qed.
 
 Theorem build_document_wf (a : arena) (key : string) (bs : list dblock) :
   arena_ok a = true ->
-  Forall (fun b => plain_items b = true) bs ->
   exists st, build_document a key bs = Ok st /\
     arena_ok (b_arena st) = true /\
     firstn (length a) (b_arena st) = a /\
@@ -585,8 +604,8 @@ Theorem build_document_wf (a : arena) (key : string) (bs : list dblock) :
     (forall id n, length a < id -> get (b_arena st) id = Some n ->
          is_emptyk (g_kind n) = false /\ is_dock (g_kind n) = false).
 Proof.
-  intros Hok Hbs.
-  destruct (build_document_grow a key bs Hok Hbs) as (st & H & O & [L F] & N).
+  intros Hok.
+  destruct (build_document_grow a key bs Hok) as (st & H & O & [L F] & N).
   exists st. split; [exact H|]. split; [exact O|]. split; [|split].
   - apply firstn_of_get. intros id n Hg. pose proof (get_lt _ _ _ Hg) as Hlt.
     destruct (F id n) as (n' & G' & _ & _ & E & _); [now rewrite get_app_l|].
@@ -597,33 +616,33 @@ Proof.
 Qed.
 Print Assumptions build_document_wf.
 
-(* the class excluded by the hypothesis is real (F-ITEMLEAD): an item that starts with a list and
-   holds a further block; the block is linked as the child of the inner list's last item, whose
-   own body (node 3) is cut off: it still names node 2 as its prev, nothing points at it *)
+(* the former witness of F-ITEMLEAD: an item that starts with a list and holds a further block; the
+   block used to be linked as the child of the inner list's last item, whose own body (node 3) was
+   cut off.  Since the builder repair the item is a section without text (node 2) over the inner
+   list and the block: the arena is a forest and every node is reached from the root *)
 Definition itemlead_witness : list dblock :=
   [DBList [[DBList [[DPara (0, 1) [Str "x"]; DPara (1, 2) [Str "z"]]]; DPara (2, 3) [Str "y"]]]].
 
-Theorem build_document_itemlead_refuted :
+Example build_document_itemlead :
   exists st, build_document [] "n" itemlead_witness = Ok st /\
-    forallb plain_items itemlead_witness = false /\
-    forallb item_leads_ok itemlead_witness = true /\
-    arena_ok (b_arena st) = false /\
-    live (b_arena st) 3 = true /\
-    existsb (Nat.eqb 3) (subtree_ids (S (length (b_arena st))) (b_arena st) 0) = false.
+    arena_ok (b_arena st) = true /\
+    subtree_ids (S (length (b_arena st))) (b_arena st) 0 = [0; 1; 2; 3; 4; 5; 6].
 Proof. eexists. split; [vm_compute; reflexivity|]. vm_compute. repeat split. Qed.
-Print Assumptions build_document_itemlead_refuted.
 
-(* the hypotheses are satisfiable by a non-trivial instance: a second note with headings, nested
-   lists (one item is a lone list, one is empty), a quote; 15 nodes are added *)
+(* non-trivial instances: a second note with headings, nested lists (one item is a lone list, one is
+   empty, some start with a quote, a code block, a rule, or a list that further blocks follow), a
+   quote; 27 nodes are added *)
 Example build_document_wf_nontrivial :
   let a := match build_document [] "z" [DPara (0, 1) [Str "a"]] with Ok st => b_arena st | Panic _ => [] end in
   let bs := [DPara (0, 1) [Str "a"]; DHeader (1, 2) 1 [Str "b"];
              DBList [[DPara (2, 3) [Str "x"]; DRule (3, 4)]; [];
-                     [DOList [[DHeader (4, 5) 2 [Str "q"]; DBList [[DPara (5, 6) [Str "r"]]]]]]];
+                     [DOList [[DHeader (4, 5) 2 [Str "q"]; DBList [[DPara (5, 6) [Str "r"]]]]]];
+                     [DQuote (5, 6) [DPara (5, 6) [Str "s"]]]; [DCode (5, 6) None "c"; DPara (5, 6) [Str "t"]];
+                     [DRule (5, 6)]; [DBList [[DPara (5, 6) [Str "u"]]]; DPara (5, 6) [Str "v"]]];
              DHeader (6, 7) 2 [Str "e"]; DQuote (7, 9) [DPara (7, 8) [Str "z"]; DHeader (8, 9) 1 [Str "w"]];
              DHeader (9, 10) 1 [Str "f"]; DCode (10, 11) None "c"] in
-  arena_ok a = true /\ forallb plain_items bs = true /\
-  match build_document a "k" bs with Ok st => length (b_arena st) = 17 | Panic _ => False end.
+  arena_ok a = true /\
+  match build_document a "k" bs with Ok st => length (b_arena st) = 29 /\ arena_ok (b_arena st) = true | Panic _ => False end.
 Proof. vm_compute. repeat split. Qed.
 
 (* ---------- every new node belongs to the new note, and is reached exactly once from its root ---- *)
@@ -636,14 +655,13 @@ Qed.
 
 Theorem build_document_owned (a : arena) (key : string) (bs : list dblock) :
   arena_ok a = true ->
-  Forall (fun b => plain_items b = true) bs ->
   exists st, build_document a key bs = Ok st /\
     (forall id, length a <= id < length (b_arena st) -> to_document (S id) (b_arena st) id = Ok (length a)) /\
     Permutation (subtree_ids (S (length (b_arena st))) (b_arena st) (length a))
                 (seq (length a) (length (b_arena st) - length a)).
 Proof.
-  intros Hok Hbs.
-  destruct (build_document_wf a key bs Hok Hbs) as (st & H & O & Hfirst & (rn & Hr & Hrk & _ & _) & Hnew).
+  intros Hok.
+  destruct (build_document_wf a key bs Hok) as (st & H & O & Hfirst & (rn & Hr & Hrk & _ & _) & Hnew).
   exists st. split; [exact H|].
   set (a2 := b_arena st) in *. set (r := length a) in *.
   assert (Hall : forall id m, get a id = Some m -> node_ok a id m = true) by (now apply arena_ok_spec).
@@ -698,31 +716,27 @@ Qed.
 (* Graph::from_markdown on blocks: a note is added to a well-formed graph *)
 Theorem from_blocks_wf (g : graph) key meta bs :
   arena_ok (gr_arena g) = true ->
-  Forall (fun b => plain_items b = true) bs ->
   exists g', from_blocks g key meta bs = Ok g' /\ arena_ok (gr_arena g') = true /\
              firstn (length (gr_arena g)) (gr_arena g') = gr_arena g.
 Proof.
-  intros Hok Hbs. unfold from_blocks, build_note.
-  destruct (build_document_wf (gr_arena g) key bs Hok Hbs) as (st & H & O & Hf & _).
+  intros Hok. unfold from_blocks, build_note.
+  destruct (build_document_wf (gr_arena g) key bs Hok) as (st & H & O & Hf & _).
   rewrite H. cbn [bind]. eexists. split; [reflexivity|]. rewrite refresh_title_arena. cbn [gr_arena]. auto.
 Qed.
 
-Definition note_plain (n : string * option string * list dblock) : Prop :=
-  Forall (fun b => plain_items b = true) (snd n).
-
 (* Graph::import: the arena of a freshly imported library is a well-formed forest *)
 Theorem import_wf (notes : list (string * option string * list dblock)) :
-  Forall note_plain notes -> exists g, import notes = Ok g /\ arena_ok (gr_arena g) = true.
+  exists g, import notes = Ok g /\ arena_ok (gr_arena g) = true.
 Proof.
-  intros Hok. unfold import.
+  unfold import.
   assert (H : forall g0, arena_ok (gr_arena g0) = true -> exists g1,
             fold_left (fun acc n => do g <- acc; let '(name, meta, bs) := n in
                                     build_note g (key_from_file_name name) meta bs) notes (Ok g0) = Ok g1 /\
             arena_ok (gr_arena g1) = true).
-  { induction Hok as [|[[name meta] bs] l Hn _ IH]; intros g0 H0; cbn [fold_left].
+  { induction notes as [|[[name meta] bs] l IH]; intros g0 H0; cbn [fold_left].
     - eexists. split; [reflexivity | exact H0].
     - cbn [bind]. unfold build_note at 2.
-      destruct (build_document_wf (gr_arena g0) (key_from_file_name name) bs H0 Hn) as (st & H & O & _).
+      destruct (build_document_wf (gr_arena g0) (key_from_file_name name) bs H0) as (st & H & O & _).
       rewrite H. cbn [bind]. apply IH. exact O. }
   destruct (H empty_graph eq_refl) as (g1 & H1 & O1). rewrite H1. cbn [bind]. eexists. split; [reflexivity|].
   assert (Hr : forall (ks : list (string * nat)) g, gr_arena (fold_left (fun g kv => refresh_title g (fst kv)) ks g) = gr_arena g).
